@@ -86,6 +86,9 @@ def cases(draw):
     if target == "path":
         # the writer opens the file with the declared encoding: a row it cannot encode is a row it cannot write
         fmt["encoding"] = draw(st.sampled_from(["utf-8", "utf-8", "ascii", "cp1252", "latin-1", "utf-16", "cp850"]))
+    if any(c["type"] == "IsUnique" for c in spec["checks"]) and len(rows) > fmt.get("header", 0) and draw(st.booleans()):
+        # the first data row once more at the end: a duplicate if that row was accepted
+        rows.append(list(rows[fmt.get("header", 0)]))
     return {"spec": spec, "rows": rows, "target": target, "rows_as": draw(st.sampled_from(["list", "list", "tuple"])),
             "calls": draw(st.sampled_from(["rows", "rows", "bulk"])),
             "cid_via": draw(st.sampled_from(["object", "path"])),
@@ -236,8 +239,10 @@ def _check_with_target(sub, case, cid, target):
             if not flush():
                 return
             try:
-                so_far = _render(spec, accepted) if fixed else gen_tables.delimited_text(accepted, fmt=fmt)
-                for _ in cutplace.rows(cid, io.StringIO(so_far, newline=""), on_error="continue"):
+                # (the header rows written so far, and every second time the data rows too)
+                other = accepted if row_number % 2 else accepted[:header]
+                other_text = _render(spec, other) if fixed else gen_tables.delimited_text(other, fmt=fmt)
+                for _ in cutplace.rows(cid, io.StringIO(other_text, newline=""), on_error="continue"):
                     pass
             except errors.DataError:
                 pass
